@@ -46,7 +46,13 @@ type Case struct {
 	File  string `json:"file"`  // kind of offered file
 	WAL   bool   `json:"wal"`
 	Cut   int    `json:"cut,omitempty"`
+	// Empty (route tx): the target is a database that exists at position 0 (created by the halt request itself);
+	// every non-snapshot file must be refused there too.
+	Empty bool `json:"empty,omitempty"`
 }
+
+// digestName is the database the digest looks at (one case per worker call).
+var digestName = "db"
 
 type Result struct {
 	V       []prog.V `json:"v,omitempty"`
@@ -159,7 +165,7 @@ func offered(kind string, img *oracle.Image, t, c uint64, cut int) (data []byte,
 var fileKinds = []string{"valid", "min-txid-same", "min-txid-gap", "min-txid-lower", "min-txid-lower-max-next", "min-txid-1-max-next", "wrong-prechecksum", "flip-page-byte", "flip-file-checksum", "flip-post-checksum", "flip-header-byte", "garbage", "snapshot-with-prechecksum", "snapshot-bad-header-field"}
 
 func digest(n *lab.Node) string {
-	db := n.DB("db")
+	db := n.DB(digestName)
 	if db == nil {
 		return "nodb"
 	}
@@ -248,18 +254,29 @@ func run1(t *testing.T, c Case) (res Result) {
 			p0 := N.DB("db").Pos()
 			tt, cc := uint64(p0.TXID), uint64(p0.PostApplyChecksum)
 			data, mustAccept := offered(c.File, img, tt, cc, c.Cut)
-			before := digest(N)
+			target := "db"
+			if c.Empty {
+				target = "fresh"
+				// well-formed non-snapshot files (MinTXID 7 or 8, a real pre-apply checksum): none extends position 0
+				data, _ = offered(c.File, img, 6, cc, c.Cut)
+				mustAccept = false
+			}
+			digestName = target
+			defer func() { digestName = "db" }()
+			var before string
 			var err error
 			if c.Route == "tx" {
 				client := lfshttp.NewClient()
 				client.HTTPClient = &http.Client{Transport: cl.Net.Transport("client")}
-				if _, err = client.AcquireHaltLock(context.Background(), "http://P", 0xC11E, "db", 77); err != nil {
+				if _, err = client.AcquireHaltLock(context.Background(), "http://P", 0xC11E, target, 77); err != nil {
 					res.Harness = "halt: " + err.Error()
 					return
 				}
-				err = client.Commit(context.Background(), "http://P", 0xC11E, "db", 77, bytes.NewReader(data))
-				_ = client.ReleaseHaltLock(context.Background(), "http://P", 0xC11E, "db", 77)
+				before = digest(N)
+				err = client.Commit(context.Background(), "http://P", 0xC11E, target, 77, bytes.NewReader(data))
+				_ = client.ReleaseHaltLock(context.Background(), "http://P", 0xC11E, target, 77)
 			} else {
+				before = digest(N)
 				// The backup service claims to be ahead: the primary fetches its snapshot.
 				fb.pos = map[string]ltx.Pos{"db": {TXID: ltx.TXID(tt + 5), PostApplyChecksum: 1 << 63}}
 				fb.snap = data
@@ -450,6 +467,9 @@ func TestCheck(t *testing.T) {
 				cases = append(cases, Case{Route: route, File: "truncated", WAL: wal, Cut: cut})
 			}
 		}
+	}
+	for _, k := range []string{"valid", "min-txid-gap", "min-txid-lower-max-next"} {
+		cases = append(cases, Case{Route: "tx", File: k, Empty: true})
 	}
 	pool := vlib.NewPool()
 	pool.CaseTimeout = 60 * time.Second
